@@ -59,6 +59,9 @@ struct Recorder {
     ticks: Mutex<Vec<(u64, u64, u64)>>,
     /// record writes that found no free run (device full)
     alloc_fails: AtomicU64,
+    /// hold a worker for this many ms right after it drained a non-empty shard (a slow worker:
+    /// widens the window in which the entries exist only in its local batch)
+    drain_delay_ms: AtomicU64,
 }
 
 impl Recorder {
@@ -141,6 +144,10 @@ impl feoxdb::verif::proto::Observer for Recorder {
             }
             PKind::WorkerFlush => {
                 self.visits.lock().unwrap().insert((a, b));
+                let d = self.drain_delay_ms.load(Ordering::SeqCst);
+                if d > 0 && ts > 0 {
+                    std::thread::sleep(std::time::Duration::from_millis(d));
+                }
             }
             PKind::Tick => {
                 let mut t = self.ticks.lock().unwrap();
@@ -267,6 +274,9 @@ fn run_workload(rng: &mut Rng, rec: &Arc<Recorder>, path: &str, blocks: u64, ste
             return None;
         }
     };
+    // every fourth workload runs with slow workers and lets the periodic tick fire before flush()
+    let slow = explicit_flush && rng.chance(1, 4);
+    rec.drain_delay_ms.store(if slow { rng.range(20, 60) } else { 0 }, Ordering::SeqCst);
     let nkeys = rng.range(2, 5);
     let keys: Vec<Vec<u8>> = (0..nkeys).map(|i| format!("key-{}-{}", i, rng.below(1000)).into_bytes()).collect();
     let mut hist: HashMap<Vec<u8>, Vec<St>> = keys.iter().map(|k| (k.clone(), vec![St::Absent])).collect();
@@ -300,6 +310,11 @@ fn run_workload(rng: &mut Rng, rec: &Arc<Recorder>, path: &str, blocks: u64, ste
                 rec.push(Ev::End { key: k.clone(), accepted, result: format!("{:?}", r.is_ok()) });
             }
             75..=86 if explicit_flush => {
+                if slow {
+                    // let the coordinator's tick wake the worker first: flush() then meets a worker
+                    // that has drained its shard and not yet written
+                    std::thread::sleep(std::time::Duration::from_millis(rng.range(70, 130)));
+                }
                 let snap = cur(&hist);
                 rec.push(Ev::FlushBegin(snap.clone()));
                 let r = store.flush();
@@ -329,6 +344,7 @@ fn run_workload(rng: &mut Rng, rec: &Arc<Recorder>, path: &str, blocks: u64, ste
     drop(store);
     let had_room = rec.alloc_fails.load(Ordering::SeqCst) == full_before;
     rec.push(Ev::FlushEnd { ok: had_room, snap });
+    rec.drain_delay_ms.store(0, Ordering::SeqCst);
     rec.enabled.store(false, Ordering::SeqCst);
     Some(Workload { keys, hist, blocks })
 }
@@ -1151,7 +1167,7 @@ fn main() {
     feoxdb::verif::proto::fast_shutdown(true);
     let rec = Arc::new(Recorder { log: Mutex::new(vec![]), enabled: AtomicBool::new(false), writes: AtomicU64::new(0), fsyncs: AtomicU64::new(0),
         plan: Mutex::new(FaultPlan::default()), injected: AtomicU64::new(0), fd: AtomicI64::new(-1),
-        visits: Mutex::new(Default::default()), ticks: Mutex::new(vec![]), alloc_fails: AtomicU64::new(0) });
+        visits: Mutex::new(Default::default()), ticks: Mutex::new(vec![]), alloc_fails: AtomicU64::new(0), drain_delay_ms: AtomicU64::new(0) });
     feoxdb::verif::io::set_observer(Some(rec.clone()));
     feoxdb::verif::proto::set_observer(Some(rec.clone()));
     let mut rng = Rng::new(args.seed);
